@@ -342,9 +342,29 @@ def model_value(model, v, depth=0):
     if isinstance(v, SObj):
         if depth > 3:
             return ('obj', v.cls)
-        return {'__cls__': v.cls,
-                **{k: model_value(model, a, depth + 1)
-                   for k, a in v.attrs.items()}}
+        d = {'__cls__': v.cls,
+             **{k: model_value(model, a, depth + 1)
+                for k, a in v.attrs.items()}}
+        z = getattr(v, 'z', None)
+        if isinstance(z, dict) and 'val' in z and 'null' in z:
+            # a column view: the rows of the counter-model (value, or None for a null row)
+            try:
+                n = model.eval(z['N'], model_completion=True).as_long()
+                if 0 <= n <= 16:
+                    rows = []
+                    for i in range(n):
+                        if z3.is_true(model.eval(z['null'](i), model_completion=True)):
+                            rows.append(None)
+                        else:
+                            cell = z['wrap'](z['val'](i))
+                            mv = model_value(model, cell, depth + 1)
+                            if isinstance(cell, SStr):
+                                mv = ('str', mv[1], model.eval(slen(cell.z), model_completion=True).as_long())
+                            rows.append(mv)
+                    d['rows'] = rows
+            except Exception as e:      # model printing must never kill a run
+                d['rows'] = 'unavailable: %r' % (e,)
+        return d
     if isinstance(v, (list, tuple)):
         return type(v)(model_value(model, x, depth + 1) for x in v)
     if isinstance(v, dict):
